@@ -16,7 +16,9 @@ export CARGO_NET_OFFLINE=true VERIF_ROOT="$MX/root"
 while read -r P IDS; do
   [ -z "$P" ] && continue
   case "$P" in \#*) continue;; esac
-  if ! git -C "$MX/repo" apply "$P" 2>/dev/null; then echo "$P - patch-does-not-apply" >> "$OUT"; continue; fi
+  if [ "$P" != "none" ]; then
+    if ! git -C "$MX/repo" apply "$P" 2>/dev/null; then echo "$P - patch-does-not-apply" >> "$OUT"; continue; fi
+  fi
   if ! ( cd "$MX/harness" && cargo build --release --quiet >"$MX/build.log" 2>&1 ); then
      echo "$P - build-failed" >> "$OUT"
   else
